@@ -77,6 +77,10 @@ impl<F: PackRecipient> ContainerPackCreator<F> {
         self.file.ser_write(&pack_header)?;
 
         // Write container pack header
+        assert!(
+            self.packs.len() <= u16::MAX as usize,
+            "A container pack cannot hold more than 65535 packs"
+        );
         let header = ContainerPackHeader::new(
             pack_locators_pos,
             PackCount::from(self.packs.len() as u16),
